@@ -2,18 +2,25 @@
 
 COLUMN_TRACE = {'module': 'ColumnTrace', 'cfg': 'ColumnTrace.cfg'}
 
-def seq_prop(profile, nq, nt, mc=None):
+def fam(family, profile, nq, nt, **kw):
+    d = {'family': family, 'profile': profile, 'n_quick': nq, 'n_thorough': nt}
+    d.update(kw)
+    return d
+
+
+def seq_prop(profile, nq, nt, mc=None, more=None):
     return {'level': 'model_checking', 'mc': mc or [],
-            'families': [{'family': 'seq', 'profile': profile, 'n_quick': nq, 'n_thorough': nt}],
+            'families': [fam('seq', profile, nq, nt)] + (more or []),
             'trace': COLUMN_TRACE, 'assumptions': []}
 
 
 PROPS = {
-    'C02': seq_prop('c02', 60, 1500),
+    'C02': seq_prop('c02', 60, 1500, more=[fam('conc', 'c02', 16, 300)]),
     'C03': seq_prop('c03', 60, 1500),
-    'C06': seq_prop('c06', 60, 1500),
-    'C11': seq_prop('c11', 60, 1500),
-    'C15': seq_prop('c15', 60, 1500),
+    'C06': seq_prop('c06', 60, 1500, more=[fam('conc', 'c06', 24, 400), fam('conc', 'c06dfs', 2, 16)]),
+    'C09': {'level': 'model_checking', 'mc': [], 'families': [fam('conc', 'c09', 32, 500)], 'trace': COLUMN_TRACE, 'assumptions': []},
+    'C11': seq_prop('c11', 60, 1500, more=[fam('conc', 'c11', 24, 400)]),
+    'C15': seq_prop('c15', 60, 1500, more=[fam('conc', 'c15', 24, 400)]),
     'C16': seq_prop('c16', 60, 1500),
     'C19': seq_prop('c19', 60, 1500),
     'C01': {
